@@ -107,7 +107,13 @@ func hasClass(cls []string, c string) bool {
 	return false
 }
 
+var wgOracleBugReported bool
+
 func wgReport(rec *ev.Rec, sp *wgSpec, in wgInput, res *wgResult) string {
+	if res.OracleBug != "" && !wgOracleBugReported {
+		wgOracleBugReported = true
+		ev.HarnessError(sp.prop, "%s\n%s", res.OracleBug, in.Model.String())
+	}
 	seenKnown := map[string]bool{}
 	for _, f := range res.Findings {
 		if !sp.aspects[f.Aspect] {
@@ -208,6 +214,9 @@ func wgRun(t *testing.T, sp *wgSpec) {
 			rt.Fatalf("%s\n%s", msg, m.String())
 		}
 	})
+	if wgOracleBugReported {
+		t.Fail()
+	}
 	for _, id := range sp.knownIDs {
 		n := rec.KnownHits(id) + rec.KnownHits("W1+W2")
 		if n > 0 && ev.IsKnown(sp.prop, id) {
